@@ -174,6 +174,13 @@ def single_violations(net, rng):
         (u, d, l) = edges[0]
         variant("dup1", extra_ops=[("link", new_n, l, new_n + 1), ("origin", new_o, new_n), ("dest", new_d, new_n + 1)],
                 origins=[(new_o, "ideal")], dests=[(new_d, "free")])                                               # (1)
+    # (1) once more, the second occurrence of the link on an edge that points BACK to a node inserted earlier (two
+    # nodes that have neither origin nor destination and both entering and leaving links: nothing else is violated)
+    mids = [n for n in ids if n not in onodes and n not in dnodes and indeg[n] >= 1 and outdeg[n] >= 1]
+    if len(mids) >= 2 and edges:
+        a_, b_ = mids[0], mids[-1]
+        if ids.index(a_) < ids.index(b_) and not any(e[0] == b_ and e[1] == a_ for e in edges):
+            variant("dup1-back", extra_ops=[("link", b_, edges[0][2], a_)])
     for m in [n for n in ids if indeg[n] >= 2][:2]:
         # still valid: every other node is inserted before the merge node
         variant("valid-merge-last", front_ops=[("node", x) for x in ids if x != m])
